@@ -37,9 +37,16 @@ def generate(rng, tier):
     if rng.random() < 0.3:
         empty = rng.choice(["empty.marker", "D1/empty.lock"])
         tree[empty] = {"t": "f", "c": {"gen": [0, 0]}}
+    twins = rng.random() < 0.1
+    if twins:
+        # two files with the same path relative to their own history (root and nested D1), both renamed before one run
+        tree["tw.bin"] = {"t": "f", "c": gen.unique_content(rng)}
+        tree["D1/tw.bin"] = {"t": "f", "c": gen.unique_content(rng)}
     env["tree"] = tree
     f1 = gen.pick_formats(rng, 1, 2)
     setup = [scen.cmd("create", "@R", *gen.fmt_args(f1), *(["-n"] if rng.random() < 0.15 else []))]
+    if twins and rng.random() < 0.5:
+        setup.insert(0, scen.cmd("create", "@R/D1", *gen.fmt_args(f1)))  # the nested history is the older one
     late = []
     if rng.random() < 0.45:
         setup.append(scen.gen_advance(rng))
@@ -50,7 +57,7 @@ def generate(rng, tier):
                 setup.append({"op": "write", "path": name, "c": gen.unique_content(rng), "fault": "add_file"})
                 late.append(name)
         setup.append(scen.cmd("create", "@R", *gen.fmt_args(f1 if rng.random() < 0.4 else gen.pick_formats(rng, 1, 2))))
-    if rng.random() < 0.2 and any(f.startswith("D1/") for f in gen.tree_files(tree) + late):
+    if (rng.random() < 0.2 or twins) and any(f.startswith("D1/") for f in gen.tree_files(tree) + late):
         # D1 becomes a nested history AFTER the parent recorded its files; the parent is sealed once more
         setup += [scen.gen_advance(rng), scen.cmd("create", "@R/D1", *gen.fmt_args(f1)), scen.gen_advance(rng),
                   scen.cmd("create", "@R", *gen.fmt_args(f1))]
@@ -63,7 +70,27 @@ def generate(rng, tier):
     moved = set()
     taken |= set(late)
     nested_d1 = env.pop("_nested_d1", False)
-    for _ in range(rng.randint(1, 4)):
+    if twins:
+        same_new_name = rng.random() < 0.5
+        nn = rng.randrange(99)
+        for src in ("tw.bin", "D1/tw.bin"):
+            # (the new names may coincide as well: root 'x' and nested 'D1/x')
+            dst = os.path.join(os.path.dirname(src), "twin_ren_%d" % (nn if same_new_name else rng.randrange(99)))
+            if dst not in taken:
+                taken.add(dst)
+                moved.add(src)
+                renames.append({"op": "rename", "src": src, "dst": dst, "fault": "rename_in-place", "kind": "in-place"})
+    if nested_d1 and rng.random() < 0.35:
+        # a file of the root history and a file of the nested history receive the same history-relative new name
+        top = [f for f in files if "/" not in f and f not in moved]
+        inner = [f for f in files if f.startswith("D1/") and f.count("/") == 1 and f not in moved]
+        name = "same_%d.mov" % rng.randrange(99)
+        if top and inner and name not in taken and "D1/" + name not in taken:
+            for src, dst in ((rng.choice(top), name), (rng.choice(inner), "D1/" + name)):
+                taken.add(dst)
+                moved.add(src)
+                renames.append({"op": "rename", "src": src, "dst": dst, "fault": "rename_in-place", "kind": "in-place"})
+    for _ in range(rng.randint(0 if renames else 1, 4)):
         cands = [f for f in files if f not in moved]
         if nested_d1:
             cands = [f for f in cands if f.startswith("D1/")] or cands
